@@ -8,10 +8,13 @@ use std::convert::Infallible;
 #[derive(Clone, Debug, Default)]
 pub struct TestDb {
     pub accounts: Plain,
+    /// answer `basic` with None for accounts whose info is empty (a database that stores no record for
+    /// empty accounts, although storage may exist under the address)
+    pub hide_empty: bool,
 }
 impl TestDb {
     pub fn new(p: &Plain) -> Self {
-        TestDb { accounts: p.clone() }
+        TestDb { accounts: p.clone(), hide_empty: false }
     }
 }
 pub fn block_hash_of(n: u64) -> B256 {
@@ -20,7 +23,7 @@ pub fn block_hash_of(n: u64) -> B256 {
 impl DatabaseRef for TestDb {
     type Error = Infallible;
     fn basic_ref(&self, address: Address) -> Result<Option<AccountInfo>, Infallible> {
-        Ok(self.accounts.get(&address).map(|a| {
+        Ok(self.accounts.get(&address).filter(|a| !(self.hide_empty && a.is_empty())).map(|a| {
             let mut i = a.info();
             i.code = None; // code is served by code_by_hash
             i
